@@ -38,8 +38,11 @@ def do_run(ids):
             continue
         res = {}
         try:
-            for p in props:
-                c = sh("./check %s quick" % p, cwd=V)
+            sh("./check %s quick" % props[0], cwd=V)      # builds the facts for the patched tree once
+            import concurrent.futures
+            with concurrent.futures.ThreadPoolExecutor(max_workers=10) as ex:
+                outs = list(ex.map(lambda p: (p, sh("VERIF_NO_SELFTEST=1 ./check %s quick" % p, cwd=V)), props))
+            for p, c in outs:
                 keys = [l.split("violation: ")[1].split("  [")[0] for l in c.stdout.splitlines() if l.strip().startswith("violation: ")]
                 if c.returncode != 0:
                     res[p] = {"exit": c.returncode, "violations": keys[:6], "tail": c.stdout.strip().splitlines()[-1][:200] if c.stdout.strip() else c.stderr[-200:]}
